@@ -793,6 +793,11 @@ func st1(fields ...pgen.FieldDesc) pgen.TypeDesc {
 	return pgen.TypeDesc{K: pgen.KStruct, Fields: fields}
 }
 
+// fuzzFoundCase: found by the native fuzz target of the thorough tier (FuzzProtoDecode). A struct with fields of
+// the struct-kind Message implementer Msg; the base input only "decoded" because the doubled length prefix made
+// the decoder re-interpret payload bytes as fields, and an unknown field inserted into a map entry broke that.
+const fuzzFoundCase = `{"type":{"k":"struct","fields":[{"num":1,"t":{"k":"ptr","elem":{"k":"named","name":"Msg"}}},{"num":2,"t":{"k":"ptr","elem":{"k":"named","name":"Custom16"}}},{"num":3,"t":{"k":"slice","elem":{"k":"named","name":"RawMessage"}}},{"num":4,"t":{"k":"slice","elem":{"k":"named","name":"Msg"}}},{"num":5,"t":{"k":"map","elem":{"k":"named","name":"Msg"},"key":{"k":"string"}}},{"num":6,"t":{"k":"map","elem":{"k":"named","name":"Custom16"},"key":{"k":"int32"}}}]},"value":{},"seed":0,"only":{"kind":"insert","input":"IgUAMhQwMDISMDAwMDAwMDAYDDAwMDAwMTAw","base":"IgUAMhQwMDIQMDAwMDAwMDAwMDAwMDEwMA=="}}`
+
 func witnessCases() map[string]Case {
 	nm := func(n string) pgen.TypeDesc { return pgen.TypeDesc{K: pgen.KNamed, Name: n} }
 	lf := func(k string) pgen.TypeDesc { return pgen.TypeDesc{K: k} }
@@ -800,7 +805,12 @@ func witnessCases() map[string]Case {
 	u32 := lf(pgen.KUint32)
 	msg := nm("Msg")
 	eleven := bytes.Repeat([]byte{0x08, 0x01}, 11)
+	var fuzzFound Case
+	if err := json.Unmarshal([]byte(fuzzFoundCase), &fuzzFound); err != nil {
+		panic(err)
+	}
 	return map[string]Case{
+		"struct-kind-message-double-length-prefix": fuzzFound,
 		// 11 x (field 1 varint 1) into struct{A []int32}: Unmarshal panics
 		pgen.ClassRepOver10: {Type: st1(pgen.FieldDesc{T: pgen.TypeDesc{K: pgen.KSlice, Elem: &i32}}), Only: &Derived{Kind: "valid", Input: eleven}},
 		// struct{R RawMessage; A int}: base 0a020801 1007, unknown field 3 inserted after R changes the value
